@@ -273,7 +273,8 @@ func payloadsOf(route string) []payload {
 
 // leanRoutes are routes whose handler is costly whatever the request says.
 var leanRoutes = map[string]string{
-	"GET /admin/serverinfo": "gopsutil host.Info walks /proc",
+	"GET /admin/serverinfo":      "gopsutil host.Info walks /proc",
+	"POST /services/admin/logon": "every accepted logon seals a token under a fresh salt: one Argon2id run (32 MiB)",
 }
 
 func (p payload) leanOne() payload {
